@@ -102,6 +102,12 @@ uint64_t cmb_datasummary_merge(struct cmb_datasummary *tgt,
     struct cmb_datasummary cs = { 0 };
     cmb_datasummary_initialize(&cs);
     cs.count = dsp1->count + dsp2->count;
+    if (cs.count == 0u) {
+        /* Both empty, and so is the result (avoid 0/0 below) */
+        *tgt = cs;
+        return 0u;
+    }
+
     cs.min = (dsp1->min < dsp2->min) ? dsp1->min : dsp2->min;
     cs.max = (dsp1->max > dsp2->max) ? dsp1->max : dsp2->max;
 
